@@ -736,7 +736,7 @@ func (s *Spec) SafeParametersFor(operationID string, callmeOnError ErrorOnParamF
 		return res
 	}
 
-	for _, pi := range s.spec.Paths.Paths {
+	for _, pi := range s.AllPaths() {
 		if pi.Get != nil && pi.Get.ID == operationID {
 			return gatherParams(&pi, pi.Get) //#nosec
 		}
@@ -783,9 +783,16 @@ func (s *Spec) ParamsFor(method, path string) map[string]spec.Parameter {
 // parameters. If the callback is set to nil, panics upon errors.
 func (s *Spec) SafeParamsFor(method, path string, callmeOnError ErrorOnParamFunc) map[string]spec.Parameter {
 	res := make(map[string]spec.Parameter)
-	if pi, ok := s.spec.Paths.Paths[path]; ok {
+
+	op, found := s.OperationFor(method, path)
+	if !found || op == nil {
+		// no such operation: nothing to report
+		return res
+	}
+
+	if pi, ok := s.AllPaths()[path]; ok {
 		s.paramsAsMap(pi.Parameters, res, callmeOnError)
-		s.paramsAsMap(s.operations[strings.ToUpper(method)][path].Parameters, res, callmeOnError)
+		s.paramsAsMap(op.Parameters, res, callmeOnError)
 	}
 
 	return res
